@@ -1,0 +1,14 @@
+//go:build verif
+
+package libaudit
+
+// VerifYieldHook, when non-nil, is called between the atomic steps of the
+// Reassembler so that a test scheduler can force a particular interleaving.
+// It only exists in builds with the "verif" tag.
+var VerifYieldHook func(point string)
+
+func verifYield(point string) {
+	if h := VerifYieldHook; h != nil {
+		h(point)
+	}
+}
